@@ -54,6 +54,8 @@ def o_scale(f, g, s, t, rational=False):
         return None
     return orc
 
+NEEDS_CLI = True
+
 def cases(rng, tier):
     th = tier == 'thorough'
     out = []
@@ -161,4 +163,22 @@ def cases(rng, tier):
     s = Case('resultant', line('resultant', [], []), model=line('resultant_x', [], [], R.MODE['debug']), compare=cmpf, nontrivial=False, tag='flag-count')
     fc.sentinel = s
     out.append(s)
+    # --- CLI glue: `rust-number-theory <config>` with to_find = resultant; the configuration lists the coefficients as
+    # written (trailing zeros included: the CLI must strip them), the printed value must be the library's / model's value
+    def cmp_cli(ia, ma):
+        if ia.kind != 'ok' or ma.kind != 'ok':
+            return 'CLI %r vs model %r' % (ia.raw[:200], ma.raw[:200])
+        if ia.val == Id('cli_failed'): return 'the CLI exited with an error, model %r' % ma.raw[:200]
+        if ia.val != ma.val[0]: return 'CLI printed %r, model value %r' % (ia.raw[:200], ma.raw[:200])
+        return None
+    cli = [([1, 2, 0], [3, 0, 1]), ([1, 2], [3, 0, 1, 0, 0]), ([0, 0, 1], [5]), ([7], [3]), ([1, 1, 1], [1, 1, 1]), ([2, -3, 0, 4], [-1, 0, 6])]
+    for _ in range(10 if not th else 60):
+        f = [rng.randrange(-50, 51) for _ in range(rng.randrange(1, 7))] + [0] * rng.choice([0, 0, 1, 2])
+        g = [rng.randrange(-50, 51) for _ in range(rng.randrange(1, 7))] + [0] * rng.choice([0, 0, 1])
+        cli.append((f, g))
+    for f, g in cli:
+        if not any(f) or not any(g): continue
+        out.append(Case('cli_resultant', line('cli_resultant', f, g), model=line('resultant_x', f, g, R.MODE['debug']), compare=cmp_cli,
+                        oracle=(lambda f=f, g=g: (lambda ia: None if ia.kind == 'ok' and ia.val == R.res_sylvester(R.strip(list(f)), R.strip(list(g))) else 'CLI resultant of %s, %s printed %s' % (f, g, ia.raw[:100])))(),
+                        always_oracle=True, tag='cli'))
     return out
